@@ -288,9 +288,9 @@ class Ctx:
             st = json.load(open(p))
             self.coverage["evaluations"] = self.coverage.get("evaluations", 0) + st.get("evaluations", 0)
             self.coverage["distinct_nontrivial"] = self.coverage.get("distinct_nontrivial", 0) + st.get("distinct_nontrivial", 0)
-            self.coverage.setdefault("samples", []).extend(st.get("samples", [])[:8])
+            self.coverage.setdefault("samples", []).extend((st.get("samples") or [])[:8])
             d = self.coverage.setdefault("distribution", {})
-            for k, v in st.get("distribution", {}).items():
+            for k, v in (st.get("distribution") or {}).items():
                 d[k] = d.get(k, 0) + v if isinstance(v, int) else v
             return st
         return {}
